@@ -18,6 +18,8 @@ for p in props:
     c["category"] = m.LEVEL
     CHECKS[p["id"]] = c
 
+import subprocess
+HOOK_COMMITS = subprocess.run(["git", "-C", "/repo", "log", "--grep", "^verif hooks", "--format=%H"], capture_output=True, text=True).stdout.split()
 checks = []
 for pid, c in CHECKS.items():
     checks.append({
@@ -38,7 +40,7 @@ m = {
  "setup_cmd": "./setup.sh",
  "hooks": {"guard": "fselect_verif", "enable": "RUSTFLAGS='--cfg fselect_verif --check-cfg cfg(fselect_verif)' cargo build --offline (done by driver/lib.py ensure_build into /verif/.build/target)",
            "baseline_off_cmd": "cd /repo && cargo test --workspace --no-fail-fast --offline",
-           "source_commits": [], "add_only": True},
+           "source_commits": HOOK_COMMITS, "add_only": True},
  "engines": [{"name": "tlc-replay-judge", "path": "/verif/vcheck", "serves_properties": sorted(CHECKS),
               "kind_free_text": "TLC generates scenarios from MC_* specs, the driver replays them into the real fselect binary, TLC judges the recorded behaviours against the Prop-layer TLA+ modules (Judge_*); Mech-layer models are model-checked in the same run"}],
  "checks": checks,
